@@ -25,6 +25,7 @@
 #include <atomic>
 #include <exception>
 
+#include <unifex/detail/verif_hooks.hpp>
 #include <unifex/detail/prologue.hpp>
 
 namespace unifex {
@@ -119,6 +120,7 @@ struct operation_state<UpstreamSender, DownstreamReceiver>::detached_state
   connect_result_t<UpstreamSender, _receiver> childOp_;
 
   void request_stop() noexcept {
+    UNIFEX_VERIF_YIELD("race.d_load");
     auto expected = parentOp_.load(std::memory_order_relaxed);
     if (ref_count(expected) == 0u) {
       // try_get_op already executed
@@ -128,6 +130,7 @@ struct operation_state<UpstreamSender, DownstreamReceiver>::detached_state
     // 1. set ref count to 2
     // 2. zero the pointer
     // if successful, callback owns the op and ptr remains in `expected`
+    UNIFEX_VERIF_YIELD("race.d_cas");
     if (!parentOp_.compare_exchange_strong(
             expected,
             2u,
@@ -136,7 +139,9 @@ struct operation_state<UpstreamSender, DownstreamReceiver>::detached_state
       UNIFEX_ASSERT(ref_count(expected) == 0u);
       return;
     }
+    UNIFEX_VERIF_YIELD("race.d_req");
     stopSource_.request_stop();
+    UNIFEX_VERIF_YIELD("race.d_sub");
     auto refCount = parentOp_.fetch_sub(1u, std::memory_order_acq_rel);
     UNIFEX_ASSERT(parent_op_ptr(refCount) == nullptr);
     auto op = parent_op_ptr(expected);
@@ -151,6 +156,7 @@ struct operation_state<UpstreamSender, DownstreamReceiver>::detached_state
   }
 
   parent_op_t* try_get_op() noexcept {
+    UNIFEX_VERIF_YIELD("race.d_get");
     auto op = parentOp_.fetch_sub(1u, std::memory_order_acq_rel);
     if (ref_count(op) != 1u) {
       // decrement from 2 means lost race with stop callback
